@@ -506,7 +506,18 @@ def gen_ns_validation(rng, n):
             f["y"] = rng.randint(1900, 2100); f["n"] = rng.randint(0, 3); yield {"op": "findn", "a": f}
 
 
+def gen_convenience(rng, n):
+    """fixed-offset zones, the UTC constants, and the clock-reading entry points"""
+    for _ in range(n):
+        off = rng.choice([0, 0, 3600, -3600, I32MAX, I32MIN + 1, I32MIN, rng.randint(I32MIN, I32MAX)])
+        e = {"op": "fixedzone", "a": {"off": off}, "g": 1}
+        yield e
+        yield {"op": "lookup", "a": {"u": W(interesting_instant(rng)), "via": rng.choice(["ref", "owned"])}}
+        yield {"op": "now", "a": {"via": rng.choice(["utc", "zone"])}}
+
+
 def gen_c14(rng, n):
+    yield from gen_convenience(rng, max(10, n // 400))
     yield from gen_range_end_finds(rng, max(20, n // 200))
     z = gen_table_zone(rng, nmax=10)
     yield zone_event(z)
@@ -687,16 +698,33 @@ def gen_rule_zone_session(rng, r, with_table=False, do_find=True, do_findn=False
         pts += [tr[-1][0] + dl for dl in (-1, 0, 1, 3600, -3600)]
     rng.shuffle(pts)
     offs = [r["std"]["off"], r["dst"]["off"]]
+
+    def search(L):
+        f = fields_of_local(L, 0)
+        if do_findn and rng.random() < 0.5:
+            f["n"] = rng.randint(0, 4)
+            return {"op": "findn", "a": f}
+        return {"op": "find", "a": f}
     for u in pts[:nprobe]:
         yield {"op": "lookup", "a": {"u": W(u), "via": "ref"}}
         if do_find and MINT + 2**32 < u < MAXT - 2**32:
-            L = u + rng.choice(offs) + rng.choice([-1, 0, 0, 1])
-            f = fields_of_local(L, 0)
-            if do_findn and rng.random() < 0.5:
-                f["n"] = rng.randint(0, 4)
-                yield {"op": "findn", "a": f}
-            else:
-                yield {"op": "find", "a": f}
+            yield search(u + rng.choice(offs) + rng.choice([-1, 0, 0, 1]))
+    if do_find:
+        # the four boundary seconds T+a-1, T+a, T+b-1, T+b of every rule-generated transition of one year and of the table/rule
+        # junction, and local times around New Year
+        y = rng.choice([rng.randint(1971, 2400), 2004, 2021])
+        trans = [rule_S(r, y - 1), rule_E(r, y - 1), rule_S(r, y), rule_E(r, y), rule_S(r, y + 1), rule_E(r, y + 1)]
+        if tr:
+            trans = [tr[-1][0]] + [t for t in (rule_S(r, yy) for yy in range(2090, 2110)) if abs(t - tr[-1][0]) < 400 * DAY][:2] \
+                    + [t for t in (rule_E(r, yy) for yy in range(1940, 2110)) if abs(t - tr[-1][0]) < 400 * DAY][:2] + trans[:2]
+        a, b = min(offs), max(offs)
+        for T in trans:
+            for L in (T + a - 1, T + a, T + b - 1, T + b, T + (a + b) // 2):
+                if MINT + 2**32 < L < MAXT - 2**32:
+                    yield search(L)
+        ny = days_from_civil(y, 1, 1) * DAY
+        for L in (ny - 3600, ny - 1800, ny - 1, ny, ny + 900, ny + 3600):
+            yield search(L)
 
 
 def gen_c04(rng, nrules, do_find=False):
